@@ -249,6 +249,12 @@ def build(case):
     elif ck == "listbox":
         items = [_flow_item(s, uid(), w.log) for s in content["items"]]
         items += [RecText(text_markup(uid(), [1]), wrap="clip") for _ in range(content["tail"])]
+        if content.get("fit"):
+            # len(body) == k * (rows of the first view) + d, at least one item
+            k, d = content["fit"]
+            want = max(1, k * case["size"][1] + d)
+            del items[want:]
+            items += [RecText(text_markup(uid(), [1]), wrap="clip") for _ in range(want - len(items))]
         w.inner = urwid.ListBox(urwid.SimpleFocusListWalker(items))
         if items:
             w.inner.set_focus(content["focus"] % len(items))
@@ -731,6 +737,15 @@ _c_lb = st.fixed_dictionaries(
     {"c": st.just("listbox"), "items": st.lists(_lb_item, min_size=0, max_size=12), "tail": st.one_of(st.just(0), st.integers(0, 35)),
      "focus": st.integers(0, 50)}
 )
+# the same, but the number of items is tied to the height of the first view: len(body) == k * rows + d (the tail of
+# one-row items is sized, or the drawn items are cut, to get there), so that lists of exactly / one more / one less
+# than k screens of items - in particular both sides of ListBox's "more than 3 screens of items" rule that switches
+# the ScrollBar to the item-based estimate - are part of the generated domain; half of these start at the top
+_c_lb_fit = st.fixed_dictionaries(
+    {"c": st.just("listbox"), "items": st.lists(_lb_item, min_size=1, max_size=12), "tail": st.just(0),
+     "fit": st.tuples(st.sampled_from([1, 2, 3, 3, 3, 4]), st.integers(-1, 1)).map(list),
+     "focus": st.one_of(st.just(0), st.integers(0, 50))}
+)
 _scr_content = st.one_of(_c_text, _c_text, _c_pile, _c_pile, _c_fixed, _c_big)
 
 _bar = st.fixed_dictionaries(
@@ -764,7 +779,8 @@ def _case(max_ops):
              "deco": st.sampled_from([False, False, False, True]), **common}
         ),
         st.fixed_dictionaries(
-            {"kind": st.just("sb_listbox"), "content": _c_lb, "bar": _bar, "deco": st.sampled_from([False, False, False, True]), **common}
+            {"kind": st.just("sb_listbox"), "content": st.one_of(_c_lb, _c_lb, _c_lb_fit), "bar": _bar,
+             "deco": st.sampled_from([False, False, False, True]), **common}
         ),
     )
 
@@ -786,10 +802,71 @@ def _classes(case):
     return out
 
 
+# ---------------------------------------------------------------------------------------------
+# deterministic sweep over small views: every position of every small content
+
+
+HEIGHT_PATTERNS = [[1], [2], [3], [1, 2, 3], [3, 1]]  # item heights, repeated cyclically over the list
+
+
+def _sweep_cases(hmax):
+    """Every view height h in 1..hmax, every content size n in 0..3h+3 (so: content that fits, exactly fits, is one
+    row / one item longer, and - for a ListBox - lists of less than, exactly and more than three screens of items),
+    walked through *every* reachable position: forwards to the end and back to the top.
+
+    ScrollBar over ListBox: n items whose heights follow each HEIGHT_PATTERN, unselectable Text or selectable
+    probes, scrolled with down/up or page down/page up.  ScrollBar over Scrollable over Text of n one-word lines:
+    set_scrollpos(0..max+1) and then the same positions counted from the bottom (-1..-(max+2)).
+    """
+    for h in range(1, hmax + 1):
+        for n in range(0, 3 * h + 4):
+            bar = {"side": "left" if (h + n) % 3 == 0 else "right", "width": 1 + (h + n) % 5 // 4, "thumb": 8, "trough": 10}
+            size = [9 + bar["width"], h]
+            for pi, pat in enumerate(HEIGHT_PATTERNS):
+                heights = [pat[i % len(pat)] for i in range(n)]
+                total = sum(heights)
+                for sel in (False, True):
+                    if sel:
+                        items = [{"t": "probe", "rows": r, "keys": [], "buttons": []} for r in heights]
+                    else:
+                        items = [{"t": "text", "lines": [1] * r, "wrap": "clip"} for r in heights]
+                    for fwd, back in (("down", "up"), ("page down", "page up")):
+                        # one row (unselectable) or one item (selectable) per "down" at least; a page key moves
+                        # by at least one row as well: total + 1 presses reach the end from the top
+                        k = (n if sel else total) + 1 if fwd == "down" else -(-total // h) + 1
+                        yield {
+                            "kind": "sb_listbox",
+                            "content": {"c": "listbox", "items": items, "tail": 0, "focus": 0},
+                            "bar": bar, "deco": False, "size": size, "focus": True,
+                            "ops": [["key", fwd]] * k + [["key", back]] * k,
+                            "sweep": f"lb/{pi}/{int(sel)}/{fwd}",
+                        }
+            maxp = max(0, n - h)
+            yield {
+                "kind": "sb_scrollable",
+                "content": {"c": "text", "lines": [1] * n, "wrap": "clip", "align": "left"},
+                "ffk": False, "bar": bar, "deco": False, "size": size, "focus": True,
+                "ops": [["setpos", q] for q in range(0, maxp + 2)] + [["setpos", -q] for q in range(1, maxp + 3)],
+                "sweep": "text/setpos",
+            }
+
+
+def _sweep_classes(case):
+    out = ["sweep:" + case["sweep"].split("/")[0]]
+    if case["kind"] == "sb_listbox":
+        n, h = len(case["content"]["items"]), case["size"][1]
+        out.append("sweep:lb:items " + ("< 3 screens" if n < 3 * h else "== 3 screens" if n == 3 * h else "> 3 screens"))
+    return out
+
+
 def shard(ctx):
     global _CTX
     _CTX = ctx
     try:
+        ctx.sweep("hist", _sweep_cases(ctx.scale(6, 9)), nontrivial=lambda c: False, classify=_sweep_classes,
+                  exhaustive_name="small-views-every-position")
+        if ctx.failure is not None:
+            return
         ctx.given("hist", _case(ctx.scale(30, 60)), ctx.scale(400, 8000), nontrivial=lambda c: False, classify=_classes)
     finally:
         _CTX = None
